@@ -22,6 +22,8 @@ from pycoin.key.subpaths import subpaths_for_path_range
 MANIFEST = {
     "text": "Lean theorems over an executable model of bip32.py / BIP32Node / subpaths / electrum / hparse: what from_master_secret returns is the "
             "BIP's master key generation for the seed (C09_master_from_seed; seeds of length 0,1,16,32,64,65 and the vectors' seeds run through bip32_master); "
+            "conversely, wherever the BIP's master key is valid (1 <= parse256(I_L) < n) from_master_secret does return a node, and it is that master "
+            "(C09_master_from_seed_complete, C09_master_from_seed_iff; hypothesis-free for every constructed secp256k1 generator object: C09_master_from_seed_complete_secp256k1); "
             "the HMAC outputs for which CKD declares a key invalid are counted (exactly 2^256-n values of I_L, below 2^-127 of all on secp256k1: "
             "C09_ckd_invalid_count; 'HMAC-SHA512 output is uniform' is the named assumption that turns the count into a probability); CKDpriv and CKDpub equal the "
             "BIP32 specification (written from the BIP text over Mathlib's elliptic-curve group) whenever I_L < n and the child is "
